@@ -112,6 +112,10 @@ class C05(Check):
                 xs, ys, zs, secs, mss = self._fixes(eng, None, n, True)
                 tms = [zterm(secs[i]) * 1000 + zterm(mss[i]) for i in range(n)]
                 delta, req = self._request(eng, None, job, tms)
+                if job['form'] == 'step':
+                    # boundary hints for the concolic fallback: steps that divide the duration exactly (named by the property)
+                    st = eng.inputs['stepms']
+                    ctx.hints = [st * k == tms[-1] - tms[0] for k in (1, 2, 3)]
                 tr = mk_track(xs, ys, zs, secs, mss)
                 tr.resample(delta, 1, 2)
                 ctx.reach()
